@@ -41,7 +41,21 @@ pub static C08: CheckSpec = CheckSpec {
     assumptions: &["XOR distance and log2 distance of the oracle are computed from raw id bytes, independently of kbucket::Key", "nodes_by_distances is called with a cap >= 1 and distinct distances"],
 };
 
-pub static ALL: &[&CheckSpec] = &[&C07, &C08];
+pub static C16: CheckSpec = CheckSpec {
+    id: "C16",
+    level: "exploration",
+    scenarios: &[Scenario { name: "ip-table-history", weight: 1, run: worlds::iptable::run }],
+    runs_quick: 6_000,
+    runs_thorough: 600_000,
+    cap_quick_s: 60,
+    cap_thorough_s: 900,
+    rule: "one run = one generated history (20..320 operations: insert_or_update, record updates that may move a node to another /24, status updates, removals, Entry API, iteration, clock advances around the 60 s pending timeout) on the routing table of a Discv5 built with ip_limit (real IpTableFilter/IpBucketFilter), over 30..150 real signed records drawn from 1-3 /24 subnets plus address-less and IPv6-only fillers, with an optional fill burst so that full buckets with pending candidates occur; per-bucket and per-table /24 counts are checked after every operation; distinct = distinct hash of the operation/result log",
+    components_real: &["kbucket::KBucketsTable<NodeId, Enr>", "kbucket::filter::{IpTableFilter, IpBucketFilter}", "Discv5::new (filter wiring)", "enr records with real signatures"],
+    components_stub: STUB_CLOCK,
+    assumptions: &["identities come from a fixed pool of 192 deterministic secp256k1 keys, so populated buckets are the high ones (255, 254, ...)"],
+};
+
+pub static ALL: &[&CheckSpec] = &[&C07, &C08, &C16];
 
 pub fn lookup(id: &str) -> Option<&'static CheckSpec> {
     ALL.iter().copied().find(|c| c.id.eq_ignore_ascii_case(id))
